@@ -10,6 +10,7 @@ import (
 	"time"
 
 	"github.com/whawty/auth/zzverif/simfs"
+	"github.com/whawty/auth/zzverif/simsignal"
 
 	ber "github.com/go-asn1-ber/asn1-ber"
 	"github.com/whawty/auth/zzverif/simexec"
@@ -320,6 +321,27 @@ func propC10(r *Run) {
 						left--
 						w.nw.InjectAcceptError(a.saslPath, syscall.EMFILE)
 						r.Count("fault:accept-emfile")
+					}})
+				}
+				return out
+			}
+		}
+		// reload signals while requests are in flight (the configuration has not changed, so every
+		// reload succeeds): "no request pattern, however timed" includes the operator's SIGHUPs
+		if r.Choose("reload-signals", 3) == 0 {
+			prev := o.extra
+			left := 1 + r.Choose("nreload-signals", 4)
+			o.wExtra = 3
+			o.extra = func() []action {
+				var out []action
+				if prev != nil {
+					out = prev()
+				}
+				if left > 0 {
+					out = append(out, action{2, "SIGHUP (reload, configuration unchanged)", func() {
+						left--
+						simsignal.Raise(syscall.SIGHUP, -1)
+						r.Count("fault:sighup-reload")
 					}})
 				}
 				return out
